@@ -237,19 +237,19 @@ def possibly_set(a, w):
     return m
 
 
-def v_add(a, b, w):
+def v_add(a, b, w, cin=0):
     if isinstance(a, int) and isinstance(b, int):
-        return (a + b) & mask(w)
-    if possibly_set(a, w) & possibly_set(b, w) == 0:
+        return (a + b + cin) & mask(w)
+    if not cin and possibly_set(a, w) & possibly_set(b, w) == 0:
         return v_or(a, b, w)
     a = to_bits(a, w)
     b = to_bits(b, w)
     out = []
-    c = 0
+    c = 1 if cin else 0
     opaque = None
     for i, (x, y) in enumerate(zip(a, b)):
         if opaque is not None:
-            out.append(('C', 'add', opaque[0], opaque[1], w, i))
+            out.append(('C', 'add', opaque[0], opaque[1], w, i, 1 if cin else 0))
             continue
         if is_unknown(c):
             out.append(TOP)
@@ -264,7 +264,7 @@ def v_add(a, b, w):
             # (operands that already contain sum atoms are not nested: the terms would grow without bound)
             ta, tb = tuple(a), tuple(b)
             opaque = (ta, tb) if _vec_key(ta) <= _vec_key(tb) else (tb, ta)
-            out.append(('C', 'add', opaque[0], opaque[1], w, i) if is_unknown(s) else s)
+            out.append(('C', 'add', opaque[0], opaque[1], w, i, 1 if cin else 0) if is_unknown(s) else s)
             continue
         c = c2
         out.append(s)
@@ -309,7 +309,7 @@ def v_sub(a, b, w):
     if isinstance(a, int) and isinstance(b, int):
         return (a - b) & mask(w)
     nb = v_not(b, w)
-    return v_add(v_add(a, nb, w), 1, w)
+    return v_add(a, nb, w, cin=1)          # a - b = a + ~b + 1 in one carry chain
 
 
 def v_mul(a, b, w):
@@ -422,7 +422,7 @@ def eval_atom(a, env):
         return 0
     if kind == 'add':
         # ('C','add', lhs bits, rhs bits, w, i): bit i of lhs + rhs
-        return ((eval_vec(a[2], a[4], env) + eval_vec(a[3], a[4], env)) >> a[5]) & 1
+        return ((eval_vec(a[2], a[4], env) + eval_vec(a[3], a[4], env) + (a[6] if len(a) > 6 else 0)) >> a[5]) & 1
     if kind == 'cmp':
         # ('C','cmp', pred, lhs, rhs, w)
         pred, l, r, w = a[2], a[3], a[4], a[5]
@@ -563,7 +563,7 @@ def fmt_term(t):
             bs = sorted(fmt_term(b) for b in t[2])
             return 'any(%s)' % ','.join(bs if len(bs) < 6 else bs[:2] + ['..'] + bs[-2:])
         if t[1] == 'add':
-            return 'sum.%d(%s + %s)' % (t[5], fmt_vec(t[2], t[4]), fmt_vec(t[3], t[4]))
+            return 'sum.%d(%s + %s%s)' % (t[5], fmt_vec(t[2], t[4]), fmt_vec(t[3], t[4]), ' + 1' if len(t) > 6 and t[6] else '')
         return 'cmp(%s,%s,%s)' % (t[2], fmt_vec(t[3], t[5]), fmt_vec(t[4], t[5]))
     if t[0] == 'X':
         ms = []
@@ -666,7 +666,7 @@ class PathCond(object):
                 r = norm(tuple(self.apply(b) for b in t[3]))
                 if l == norm(t[2]) and r == norm(t[3]):
                     return t
-                t2 = to_bits(v_add(l, r, t[4]), t[4])[t[5]]
+                t2 = to_bits(v_add(l, r, t[4], cin=(t[6] if len(t) > 6 else 0)), t[4])[t[5]]
             elif t[1] == 'cmp':
                 l = tuple(self.apply(b) for b in t[3]) if isinstance(t[3], tuple) else t[3]
                 r = tuple(self.apply(b) for b in t[4]) if isinstance(t[4], tuple) else t[4]
